@@ -2,6 +2,7 @@ package mon
 
 import (
 	"fmt"
+	"strings"
 
 	stackage "github.com/JesseCoretta/go-stackage"
 	"verifharness/core"
@@ -437,6 +438,12 @@ func c05Run(c *core.Ctx, idx int) {
 					n.Sym = sym // (LIST stacks ignore symbols)
 				}
 			})
+		}
+	}
+	if sp := core.NewRng(core.Mix(uint64(c.Seed)+0x5b1ce, uint64(idx))); !condRoot && sp.Chance(1, 6) {
+		// (own PRNG stream, so that the rest of the case is what it was without this step)
+		if did := Spice(sp, base, sp.Chance(1, 2), sp.Chance(1, 2), sp.Chance(1, 2)); did != "" {
+			c.Count("trees.spiced." + strings.ReplaceAll(strings.TrimSpace(did), " ", "+"))
 		}
 	}
 	type inst struct {
